@@ -20,6 +20,7 @@ abbrev Text := List Nat
 inductive Err where
   | assertion      -- `assert 0 < value < 4000`, `assert value > 0`
   | index          -- `ROMAN_ONES[index]` out of range
+  | syntax         -- PDFSyntaxError (settings.STRICT only)
   | fuel           -- model artefact: loop bound exhausted (proved unreachable)
   deriving DecidableEq, Repr
 
@@ -170,6 +171,19 @@ def sortKeys {α : Type} : List (Int × α) → List (Int × α)
 /-- `NumberTree.values` with `settings.STRICT = False`. -/
 def NumTree.values {α : Type} (t : NumTree α) : List (Int × α) := sortKeys t.parse
 
+/-- `all(a[0] <= b[0] for a, b in zip(values, values[1:]))` -/
+def nonDecreasingFrom (a : Int) : List Int → Bool
+  | [] => true
+  | b :: tl => decide (a ≤ b) && nonDecreasingFrom b tl
+
+def nonDecreasing : List Int → Bool
+  | [] => true
+  | a :: tl => nonDecreasingFrom a tl
+
+/-- `NumberTree.values` with `settings.STRICT = True`: no sort, out-of-order keys are an error. -/
+def NumTree.valuesStrict {α : Type} (t : NumTree α) : Except Err (List (Int × α)) :=
+  if nonDecreasing (t.parse.map (·.1)) then .ok t.parse else .error .syntax
+
 /-! ### Page labels -/
 
 structure LabelDict where
@@ -208,5 +222,13 @@ def withZero (r : List (Int × LabelDict)) : List (Int × LabelDict) :=
 /-- First `n` items of `PageLabels.labels`; an `error` item is where the generator raises. -/
 def labels (t : NumTree LabelDict) (n : Nat) : List (Except Err Text) :=
   labelsAux (withZero t.values) n
+
+/-- `PageLabels.labels` with `settings.STRICT = True`: an error in front = the generator raises
+before its first item ("Number tree elements are out of order", "PageLabels is missing page index 0"). -/
+def labelsStrict (t : NumTree LabelDict) (n : Nat) : Except Err (List (Except Err Text)) :=
+  match t.valuesStrict with
+  | .error e => .error e
+  | .ok [] => .error .syntax
+  | .ok ((k, d) :: rest) => if k = 0 then .ok (labelsAux ((k, d) :: rest) n) else .error .syntax
 
 end PdfVerif.Labels
